@@ -21,7 +21,11 @@ ASSUME = [
     "re-encryption, sentQueue never exceeds 100.  NOT proved, checked by the simulator only (C03_complete_partial and "
     "the per-(recipient, id) form of at-most-once / no-stray, which need a world-level invariant over server queues "
     "and both ratchets): every sent message reaches every intended recipient exactly once and the sender gets each "
-    "delivery receipt",
+    "delivery receipt.  Proved in addition (C03_chain_* / C03_late_key_no_redelivery): a sender-key distribution "
+    "message carries the chain position at its creation (= number of group messages encrypted so far, any state, any "
+    "history), a recipient's chain starts there, and a stanza encrypted below a recipient's chain start is never "
+    "shown again whatever happens in between - so a member that got the key late through its retry receipt only "
+    "re-acknowledges a late duplicate of the original stanza; refuted for a memoised distribution message",
     "modelled, not verified: python-axolotl 0.2.2 session / sender-key ciphers as the abstract ratchet of "
     "coq/C03/C03Model.v; protobuf parsing; random padding (drawn from the seeded generator); SQLite durability",
     "tie model<->code: each script is run on 2-4 real stacks (control/send/receive axolotl layers, protocol layers, real "
@@ -104,6 +108,7 @@ class Runner(object):
         self.sends = {}         # mid -> {"from","to","group","recipients","kind","raw","texts"}
         self.entity_rng = random.Random(case.get("entity_seed", 7))
         self.crash = None
+        self.had_key = {}       # (account, index of the incoming event) -> held a sender key of that sender then
 
     def target_jid(self, t):
         if isinstance(t, str):
@@ -132,6 +137,12 @@ class Runner(object):
             w.accounts[a].app_send(ent)
         elif k == "deliver":
             if act[1] < len(w.pending):
+                d = w.pending[act[1]]
+                if d.kind == "message" and d.meta.get("group") and w.observer is not None and d.dst.stack is not None:
+                    # observation for the known-finding shapes: did the addressee hold a sender key of this sender
+                    # for this group when the stanza arrived?  (sender_keys table, read-only; anchor state of C03)
+                    self.had_key[(d.dst.idx, len(w.observer.events[d.dst.idx]))] = \
+                        w.observer.has_senderkey(d.dst, d.meta["group"], w.accounts[d.meta["sender"]].phone)
                 w.deliver(act[1])
         elif k == "dup":
             if act[1] < len(w.pending) and w.pending[act[1]].kind == "message":
@@ -157,20 +168,41 @@ def generate_actions(ctx_rng, case, runner):
         acts.append(a)
         runner.do(a)
 
+    late = bool(case.get("late_dup"))     # the copy made by a `dup` is HELD: delivered after everything else
+
     def maybe_fault():
         nonlocal fault_budget
         mp = runner.w.messages_pending()
         if fault_budget > 0 and mp and rng.random() < case.get("fault_p", .25):
-            k = rng.choice(mp)
+            if late:
+                # prefer a group stanza that carries only a sender-key ciphertext (its addressee has to ask)
+                bare = [i for i in mp if is_bare_skmsg_node(runner.w.pending[i].node)]
+                k = rng.choice(bare) if bare and rng.random() < .8 else rng.choice(mp)
+            else:
+                k = rng.choice(mp)
             if runner.w.pending[k].meta.get("dup") or runner.w.pending[k].meta.get("corrupt"):
                 return
             fault_budget -= 1
-            if rng.random() < .5:
+            if late or rng.random() < .5:
                 step(["dup", k])
             else:
                 step(["corrupt", k, rng.randrange(3)])
 
+    def pick(final):
+        """index of the next delivery; None = nothing to deliver now (only held copies are queued)"""
+        pend = runner.w.pending
+        if late:
+            live = [i for i, d in enumerate(pend) if not d.meta.get("dup")]
+            if live and rng.random() >= case.get("release_p", .03):
+                return rng.choice(live) if case.get("reorder", True) else live[0]
+            if not live and not final and rng.random() >= case.get("release_p", .03):
+                return None
+        return rng.randrange(len(pend)) if case.get("reorder", True) else 0
+
     for op in ops:
+        if op[0] == "settle":
+            step(["drain"])
+            continue
         if op[0] == "restart":
             step(["drain"])            # restarts only while none of the party's stanzas is in flight
             step(op)
@@ -182,13 +214,21 @@ def generate_actions(ctx_rng, case, runner):
             maybe_fault()
             if not runner.w.pending:
                 break
-            step(["deliver", rng.randrange(len(runner.w.pending)) if case.get("reorder", True) else 0])
+            k = pick(False)
+            if k is None:
+                break
+            step(["deliver", k])
     guard = 0
     while runner.w.pending and guard < 3000:
         maybe_fault()
-        step(["deliver", rng.randrange(len(runner.w.pending)) if case.get("reorder", True) else 0])
+        step(["deliver", pick(True)])
         guard += 1
     return acts
+
+
+def is_bare_skmsg_node(node):
+    encs = node.getAllChildren("enc")
+    return bool(encs) and node.getChild("participants") is None and all(e["type"] == "skmsg" for e in encs)
 
 
 def run_actions(ctx, case):
@@ -402,8 +442,10 @@ def needles(runner):
 
 
 def oracle(runner, rec, case):
-    """-> list of (name, detail, key or None)"""
+    """-> list of (name, detail, key or None); runner.kf_claims lists, for every tentative known-finding key that
+    rests on the model of the code as it is (group-dup-of-undecryptable-skmsg), (position in the result, account)"""
     bad = []
+    runner.kf_claims = []
     w = runner.w
     nd = needles(runner)
     n = case["n"]
@@ -442,10 +484,16 @@ def oracle(runner, rec, case):
         if len(evs) > 1:
             key = None
             if s["group"] is not None and any(f[0] == "dup" for f in faults) and \
-                    bare_skmsg_retry_seen(rec, idx, mid):
+                    dup_while_keyless_shape(runner, rec, idx, mid, len(evs)):
                 key = KF_DUP_SKMSG
-            bad.append(("shown_more_than_once", "account %d was shown message %d %d times (kind %s, to %r)" %
-                        (idx, mid, len(evs), s["kind"], s["to"]), key))
+            how = ["%s (%s)" % ("+".join(t["kind"] for t in sev["encs"]) or "?",
+                              {True: "held a sender key", False: "no sender key", None: "?"}[runner.had_key.get((idx, si))])
+                   for si, sev, souts in handled_stanzas(rec, idx, mid)
+                   if any(o["tag"] == "deliver" and o["id"] == mid for o in souts)]
+            if key:
+                runner.kf_claims.append((len(bad), idx))
+            bad.append(("shown_more_than_once", "account %d was shown message %d %d times (kind %s, to %r), while "
+                        "handling stanzas with ciphertexts %r" % (idx, mid, len(evs), s["kind"], s["to"], how), key))
         for ev in evs:
             c = entity_content(runner, ev)
             g = ev["group"]
@@ -482,13 +530,28 @@ def oracle(runner, rec, case):
                     if o["dir"] == "in":
                         break
                     outs.append(o)
+                acks = [o for o in outs if o["tag"] == "receipt" and o["rtype"] == "delivery"]
+                shown = [o for o in outs if o["tag"] == "deliver"]
                 if sig in seen_stanzas and seen_stanzas[sig]:
-                    acks = [o for o in outs if o["tag"] == "receipt" and o["rtype"] == "delivery"]
-                    shown = [o for o in outs if o["tag"] == "deliver"]
                     if shown or len(acks) != 1:
                         bad.append(("duplicate_not_reacknowledged", "account %d, second delivery of the stanza of "
                                     "message %d: shown %d, delivery receipts %d" %
                                     (idx, ev["id"], len(shown), len(acks)), None))
+                elif sig in seen_stanzas and any(o["tag"] == "deliver" and o["id"] == ev["id"] for o in evs[:i]):
+                    # the first delivery of this stanza could not be read (retry asked), the message was shown
+                    # through the re-encryption since: the late copy must only be re-acknowledged
+                    if shown or len(acks) != 1:
+                        nshown = sum(1 for o in evs if o["tag"] == "deliver" and o["id"] == ev["id"])
+                        key = None
+                        if ev["group"] is not None and any(f[0] == "dup" for f in faults) and \
+                                dup_while_keyless_shape(runner, rec, idx, ev["id"], nshown):
+                            key = KF_DUP_SKMSG          # shape B: the key came the regular way in between
+                            runner.kf_claims.append((len(bad), idx))
+                        bad.append(("late_duplicate_shown_again", "account %d had asked for a retry of message %d "
+                                    "and had been shown it through the answer; a copy of the ORIGINAL stanza (%s) "
+                                    "delivered after that: shown %d more time(s), delivery receipts %d" %
+                                    (idx, ev["id"], "+".join(t["kind"] for t in ev["encs"]), len(shown), len(acks)),
+                                    key))
                 else:
                     seen_stanzas[sig] = any(o["tag"] == "deliver" for o in outs)
     # --- retries: the first retry receipt an account sends for an id carries count 1
@@ -521,18 +584,66 @@ def oracle(runner, rec, case):
     return bad
 
 
-def bare_skmsg_retry_seen(rec, idx, mid):
-    """did account idx answer a sender-key-only stanza of message mid with a retry (it had no sender key)?"""
+def handled_stanzas(rec, idx, mid):
+    """every message stanza of id `mid` account idx handled, in order: (index of the event, event, what it put out
+    while handling it).  (A parked stanza is handled when its key answer arrives; those outputs follow that later
+    input and are not attributed here - C03's late-key histories never park.)"""
     evs = rec.events[idx]
+    res = []
     for i, ev in enumerate(evs):
-        if ev["dir"] == "in" and ev["tag"] == "message" and ev["id"] == mid and ev["encs"] and \
-                all(t["kind"] == "skmsg" for t in ev["encs"]):
+        if ev["dir"] == "in" and ev["tag"] == "message" and ev["id"] == mid:
+            outs = []
             for o in evs[i + 1:]:
                 if o["dir"] == "in":
                     break
-                if o["tag"] == "receipt" and o["rtype"] == "retry":
-                    return True
-    return False
+                outs.append(o)
+            res.append((i, ev, outs))
+    return res
+
+
+def is_bare_skmsg(ev):
+    return bool(ev["encs"]) and all(t["kind"] == "skmsg" for t in ev["encs"])
+
+
+def bare_skmsg_retry_seen(rec, idx, mid):
+    """did account idx answer a sender-key-only stanza of message mid with a retry (it had no sender key)?"""
+    return any(is_bare_skmsg(ev) and any(o["tag"] == "receipt" and o["rtype"] == "retry" for o in outs)
+               for _, ev, outs in handled_stanzas(rec, idx, mid))
+
+
+def dup_while_keyless_shape(runner, rec, idx, mid, total):
+    """The history shapes of the OPEN finding group-dup-of-undecryptable-skmsg, and nothing wider.  Common to both:
+    one of the two copies of the sender-key-only stanza of `mid` reached account idx while it held NO sender key of
+    that sender (it asked for a retry), and the id then reaches the application through two different ciphertexts,
+    which no ratchet can notice.
+      A  both copies arrived keyless: two retry receipts, two directed re-encryptions, both shown;
+      B  one copy arrived keyless (one retry receipt); idx then got the key the REGULAR way (the sender's stanzas
+         were also reordered), so the other copy decrypts normally, and the re-encryption that answers the retry -
+         arriving when idx already holds a key - is shown too (in either order).
+    Every showing has to be accounted for this way (`total` = how often idx was shown `mid`): showings through
+    re-encryptions <= retries asked while keyless, at most one showing through the sender-key-only stanza.
+    NOT the finding - a new violation: idx was keyless when the re-encryption arrived (it got the key LATE, through
+    the answer to its retry receipt) and a copy of the original stanza is shown nevertheless.  Then the chain it
+    was given starts too early (C03_late_key_no_redelivery says this cannot happen for the code as it is)."""
+    asked, shown_pw, shown_bare, late_key = 0, 0, 0, False
+    for i, ev, outs in handled_stanzas(rec, idx, mid):
+        bare = is_bare_skmsg(ev)
+        intact = not any(t.get("corrupt") or t.get("unknown") for t in ev["encs"])
+        had = runner.had_key.get((idx, i))
+        nshow = sum(1 for o in outs if o["tag"] == "deliver" and o["id"] == mid)
+        if bare:
+            shown_bare += nshow
+            if intact and had is False and any(o["tag"] == "receipt" and o["rtype"] == "retry" for o in outs):
+                asked += 1
+        else:
+            shown_pw += nshow
+            if nshow and had is not True:
+                late_key = True
+    if shown_pw + shown_bare != total or shown_pw > asked or shown_bare > 1:
+        return False
+    if shown_bare == 0:
+        return asked >= 2                       # shape A
+    return not late_key                         # shape B
 
 
 def lost_key(runner, rec, case, mid, r):
@@ -578,6 +689,90 @@ def random_case(rng, tier):
             "entity_seed": rng.randrange(1 << 30)}
 
 
+def retrypath_case(rng, tier):
+    """random scripts aimed at the LATE-KEY histories: the sender s already has a pairwise session with group member
+    r (they talked 1:1, either direction) while another member has none, so s's first group message reaches r as a
+    sender-key-only stanza and r gets the sender key through the answer to its retry receipt; the one fault is a
+    duplicate whose copy the server holds back and delivers late (after the retry exchange, usually after all
+    further traffic)."""
+    n = rng.choice([3, 3, 4])
+    members = list(range(n)) if (n == 3 or rng.random() < .6) else sorted(rng.sample(range(n), 3))
+    s = rng.choice(members)
+    others = [m for m in members if m != s]
+    rng.shuffle(others)
+    known = others[:rng.randint(1, len(others) - 1)]        # at least one member stays without a session
+    ops = []
+    for r in known:
+        way = rng.randrange(3)
+        if way in (0, 2):
+            ops.append(["send", s, r, rng.choice(KINDS)])
+        if way in (1, 2):
+            ops.append(["send", r, s, rng.choice(KINDS)])
+    ops.append(["settle"])
+    ops.append(["send", s, "g0", rng.choice(KINDS)])
+    for _ in range(rng.randint(0, 4 if tier == "quick" else 6)):
+        x = rng.random()
+        if x < .45:
+            ops.append(["send", s, "g0", rng.choice(KINDS)])
+        elif x < .75:
+            ops.append(["send", rng.choice(others), "g0", rng.choice(KINDS)])
+        else:
+            a = rng.choice(members)
+            ops.append(["send", a, rng.choice([m for m in range(n) if m != a]), rng.choice(KINDS)])
+    return {"name": "random-late-key", "n": n, "groups": [members], "ops": ops, "faults": 1, "fault_p": .5,
+            "late_dup": True, "release_p": rng.choice([0, .03, .03, .1]), "reorder": rng.random() < .5,
+            "pad_seed": rng.randrange(1 << 30), "entity_seed": rng.randrange(1 << 30)}
+
+
+def late_key_cases():
+    """DIRECTED: the duplicate of the original group stanza reaches r AFTER r's application has been shown the
+    message through the answer to its retry receipt (r had a pairwise session with the sender, another member had
+    none).  That late copy must only be re-acknowledged.  2-, 3- and 4-account groups, text and media, the copy
+    delivered right after the retried delivery and after further group traffic, one and two members on the retry
+    path, two group messages before the first retry is served.  (In a 2-account group every member gets the key
+    with the first message; the late copy is an ordinary duplicate there.)"""
+    cs = []
+
+    def talk(pairs):
+        acts = []
+        for a, b in pairs:
+            acts += [["send", a, b, "text"], ["drain"], ["send", b, a, "text"], ["drain"]]
+        return acts
+    for kind in ("text", "image"):
+        cs.append({"name": "late-dup-2-" + kind, "n": 2, "groups": [[0, 1]], "actions":
+                   talk([(0, 1)]) + [["send", 0, "g0", kind], ["until_msg", 1], ["dup_to", 1], ["drain_hold"],
+                                     ["send", 0, "g0", "text"], ["drain_hold"], ["drain"]]})
+    for kind in ("text", "image", "location", "url"):
+        # the copy right after the retried delivery
+        cs.append({"name": "late-dup-3-%s-right-after" % kind, "n": 3, "groups": [[0, 1, 2]], "actions":
+                   talk([(0, 1)]) + [["send", 0, "g0", kind], ["until_msg", 1], ["dup_to", 1], ["until_shown", 1],
+                                     ["deliver_held"], ["drain"]]})
+    for kind in ("text", "contact"):
+        # ... after further group traffic by the sender and by r
+        cs.append({"name": "late-dup-3-%s-after-traffic" % kind, "n": 3, "groups": [[0, 1, 2]], "actions":
+                   talk([(0, 1)]) + [["send", 0, "g0", kind], ["until_msg", 1], ["dup_to", 1], ["drain_hold"],
+                                     ["send", 0, "g0", "text"], ["drain_hold"], ["send", 1, "g0", "image"],
+                                     ["drain_hold"], ["send", 0, "g0", "location"], ["drain_hold"], ["drain"]]})
+    # r initiated the 1:1 contact; the sender is not the group's creator
+    cs.append({"name": "late-dup-3-r-initiated", "n": 3, "groups": [[0, 1, 2]], "actions":
+               [["send", 2, 1, "text"], ["drain"], ["send", 1, "g0", "exttext"], ["until_msg", 2], ["dup_to", 2],
+                ["drain_hold"], ["send", 1, "g0", "text"], ["drain_hold"], ["drain"]]})
+    # two group messages before the first retry is served: both asked for, the copy of either one comes late
+    for which in (1, 2):
+        cs.append({"name": "late-dup-3-burst-%d" % which, "n": 3, "groups": [[0, 1, 2]], "actions":
+                   talk([(0, 1)]) + [["send", 0, "g0", "text"], ["until_msg", 1], ["send", 0, "g0", "image"],
+                                     ["until_msgs", 1, 2], ["dup_to", 1, 2 + which], ["drain_hold"], ["drain"]]})
+    # 4 accounts: two members on the retry path, the copy goes to one of them; a 3-member group inside 4 accounts
+    for kind in ("text", "image"):
+        cs.append({"name": "late-dup-4-" + kind, "n": 4, "groups": [[0, 1, 2, 3]], "actions":
+                   talk([(0, 1), (0, 2)]) + [["send", 0, "g0", kind], ["until_msg", 2], ["dup_to", 2],
+                                             ["drain_hold"], ["send", 0, "g0", "text"], ["drain_hold"], ["drain"]]})
+    cs.append({"name": "late-dup-4-subgroup", "n": 4, "groups": [[1, 2, 3]], "actions":
+               talk([(3, 1), (0, 3)]) + [["send", 3, "g0", "location"], ["until_msg", 1], ["dup_to", 1],
+                                         ["until_shown", 1], ["deliver_held"], ["send", 3, "g0", "text"], ["drain"]]})
+    return cs
+
+
 def scripted_cases():
     cs = []
     # first group MEDIA message to a participant without a session (the repaired media-layer defect)
@@ -610,7 +805,17 @@ def scripted_cases():
                [["send", 0, 1, "text"], ["drain"], ["send", 1, 0, "text"], ["drain"],
                 ["send", 0, "g0", "text"], ["deliver", 0], ["deliver", 0], ["deliver", 0]] +
                [["dup_to", 1], ["drain"]]})
-    return cs
+    # the same open finding, its second shape (found by the thorough tier): the first copy of the sender-key-only
+    # stanza of message 2 arrives BEFORE the stanza that carries the key (keyless -> retry asked), then the key
+    # arrives the regular way, the held copy decrypts normally, and the answer to the retry is shown too
+    cs.append({"name": "kf-dup-keyless-then-regular-key", "n": 2, "groups": [[0, 1]], "actions":
+               [["send", 1, "g0", "text"], ["until_msg", 0], ["send", 1, "g0", "text"], ["until_msgs", 0, 2],
+                ["dup_to", 0, 2], ["deliver_msg", 0, 2], ["deliver_msg", 0, 1], ["deliver_held"], ["drain"]]})
+    # the open finding: a sender's two first group stanzas delivered in the wrong order
+    cs.append({"name": "kf-reorder-first-group-messages", "n": 2, "groups": [[0, 1]], "actions":
+               [["send", 0, "g0", "text"], ["send", 0, "g0", "text"], ["until_msgs", 1, 2], ["deliver_msg", 1, 2],
+                ["drain"]]})
+    return cs + late_key_cases()
 
 
 def prepare(ctx, case, rng):
@@ -626,14 +831,66 @@ def prepare(ctx, case, rng):
     return full, r
 
 
+def _mid_of(d):
+    i = d.meta.get("id") or ""
+    return int(i[1:]) if i[:1] == "m" and i[1:].isdigit() else None
+
+
 def expand_special(runner, act):
-    """["dup_to", idx]: duplicate the first queued message stanza addressed to account idx"""
+    """scripted actions that name a queued stanza by what it is -> explicit actions (a list; they are recomputed
+    after each one has run, see run_case):
+       ["dup_to", idx(, mid)]      duplicate the first queued message stanza addressed to account idx (of message mid)
+       ["deliver_msg", idx, mid]   deliver the first queued stanza of message mid addressed to idx
+       ["deliver_held"]            deliver the first queued copy made by a `dup`
+    the looping ones (until_msg, until_msgs, until_shown, drain_hold, drain) are expanded in run_case"""
+    w = runner.w
     if act[0] == "dup_to":
-        for i in runner.w.messages_pending():
-            if runner.w.pending[i].dst.idx == act[1]:
+        for i in w.messages_pending():
+            d = w.pending[i]
+            if d.dst.idx == act[1] and not d.meta.get("dup") and (len(act) < 3 or _mid_of(d) == act[2]):
                 return ["dup", i]
-        return ["drain"]
+        return None
+    if act[0] == "deliver_msg":
+        for i in w.messages_pending():
+            if w.pending[i].dst.idx == act[1] and _mid_of(w.pending[i]) == act[2]:
+                return ["deliver", i]
+        return None
+    if act[0] == "deliver_held":
+        for i, d in enumerate(w.pending):
+            if d.meta.get("dup"):
+                return ["deliver", i]
+        return None
     return act
+
+
+def loop_special(runner, act):
+    """next explicit action of a looping scripted action, None when its condition is reached:
+       ["drain"]                 FIFO until nothing is queued
+       ["drain_hold"]            FIFO, but the copies made by `dup` stay queued
+       ["until_msg", idx]        FIFO (copies held) until a message stanza for account idx is queued
+       ["until_msgs", idx, k]    ... until k of them are
+       ["until_shown", idx]      FIFO (copies held) until the application of idx has been shown the newest message
+       ["settle"]                = drain (used between the ops of a generated script)"""
+    w = runner.w
+    k = act[0]
+    live = [i for i, d in enumerate(w.pending) if not d.meta.get("dup")]
+    if k in ("drain", "settle"):
+        return ["deliver", 0] if w.pending else None
+    if not live:
+        return None
+    if k in ("until_msg", "until_msgs"):
+        want = act[2] if k == "until_msgs" else 1
+        have = [i for i in live if w.pending[i].kind == "message" and w.pending[i].dst.idx == act[1]]
+        if len(have) >= want:
+            return None
+    if k == "until_shown":
+        rec = w.observer
+        if any(ev["tag"] == "deliver" and ev["id"] == runner.mid for ev in rec.events[act[1]]):
+            return None
+    return ["deliver", live[0]]
+
+
+LOOPING = ("drain", "settle", "drain_hold", "until_msg", "until_msgs", "until_shown")
 
 
 def _modelled(d):
@@ -681,14 +938,18 @@ def run_case(ctx, case):
             wacts.append(wa)
     try:
         for a in case["actions"]:
-            a = expand_special(r, a)
-            if a[0] == "drain":
+            if a[0] in LOOPING:
                 n = 0
-                while r.w.pending and n < 5000:
-                    one(["deliver", 0])
+                while n < 5000:
+                    x = loop_special(r, a)
+                    if x is None:
+                        break
+                    one(x)
                     n += 1
             else:
-                one(a)
+                a = expand_special(r, a)
+                if a is not None:
+                    one(a)
         n = 0
         while r.w.pending and n < 5000:
             one(["deliver", 0])
@@ -718,21 +979,40 @@ def compare_world(model, runner, rec, case):
     """run the Coq WORLD model (accounts + server) on the same action list; every application must see the same
     entities and receipts in the same order, and the server queue must drain in both"""
     groups = [[1000 + k, list(m)] for k, m in enumerate(case.get("groups", []))]
-    res = model.call("run_world", [groups, list(range(case["n"])), runner.wacts])
+    arg = [groups, list(range(case["n"])), runner.wacts]
+    res = model.call("run_world", arg)
     if isinstance(res, tuple):
+        runner.world_differs = None
         return ["world model error %r" % (res,)]
-    per = dict((i, []) for i in range(case["n"]))
-    for acct, outs in res[0]:
-        for o in outs:
-            if o[0] in (7, 8):
-                per.setdefault(acct, []).append(norm(o))
+
+    def per_account(res):
+        per = dict((i, []) for i in range(case["n"]))
+        for acct, outs in res[0]:
+            for o in outs:
+                if o[0] in (7, 8):
+                    per.setdefault(acct, []).append(norm(o))
+        return per
+    per = per_account(res)
     diffs = []
+    real = dict((idx, norm(app_events_real(runner, rec, idx))) for idx in range(case["n"]))
+    runner.world_differs = set()
     for idx in range(case["n"]):
-        real = norm(app_events_real(runner, rec, idx))
-        if real != per[idx]:
-            diffs.append("account %d application events:\n impl  %r\n world model %r" % (idx, real, per[idx]))
+        if real[idx] != per[idx]:
+            runner.world_differs.add(idx)
+            diffs.append("account %d application events:\n impl  %r\n world model %r" % (idx, real[idx], per[idx]))
     if res[1] != 0:
         diffs.append("world model queue not drained: %d left" % res[1])
+    if diffs:
+        # diagnosis only: does the code behave like the refuted variant with a memoised distribution message?
+        try:
+            alt = model.call("run_world_cached", arg)
+            if not isinstance(alt, tuple) and all(real[i] == per_account(alt)[i] for i in range(case["n"])):
+                diffs[0] += ("\n diagnosis: every application saw exactly what the model VARIANT with a memoised "
+                             "sender-key distribution message predicts (C03ChainModel.pos_cached: the chain position "
+                             "sent to a late member is the one of the first use, not the current one - refuted by "
+                             "C03_chain_cached_position_refuted)")
+        except Exception:
+            pass
     return diffs
 
 
@@ -741,7 +1021,19 @@ def check_case(ctx, model, case, stats, guard=True):
     case = dict(case, actions=done)
     rec = runner.w.observer
     found = []
-    for name, detail, key in oracle(runner, rec, case):
+    verdicts = [list(v) for v in oracle(runner, rec, case)]
+    # the open duplicate finding is claimed only for what the MODEL OF THE CODE AS IT IS does too: the extracted world
+    # model, run on this very action list, must show that account the same entities (it reproduces the finding's
+    # histories; C03_late_key_no_redelivery proves it never shows a late copy to a member that got the key late).
+    # No model, or another prediction -> not the listed finding, a new violation.
+    runner.world_differs = None
+    wdiffs = compare_world(model, runner, rec, case) if model is not None else []
+    for pos, acct in runner.kf_claims:
+        if runner.world_differs is None or acct in runner.world_differs:
+            verdicts[pos][2] = None
+            verdicts[pos][1] += ("  [not the listed finding %s: the model of the code as it is does not show this "
+                                 "account the message twice on this history]" % KF_DUP_SKMSG)
+    for name, detail, key in verdicts:
         found.append(("oracle", name, detail, key))
     for p in rec.problems:
         found.append(("correspondence", "recorder", p, None))
@@ -770,7 +1062,7 @@ def check_case(ctx, model, case, stats, guard=True):
                 stats["outs"][o[0]] = stats["outs"].get(o[0], 0) + 1
             stats["ins"][ins[k][0]] = stats["ins"].get(ins[k][0], 0) + 1
     if model is not None:
-        for d in compare_world(model, runner, rec, case):
+        for d in wdiffs:
             found.append(("correspondence", "world-model", d, None))
         stats["world_actions"] = stats.get("world_actions", 0) + len(runner.wacts)
     return case, found, runner
@@ -804,9 +1096,15 @@ def run(ctx):
     model = modelrun.Model(exe) if exe else None
     stats = {"inputs": 0, "outs": {}, "ins": {}}
     cases = scripted_cases()
-    nrand = 120 if ctx.tier == "quick" else 2000
-    for _ in range(nrand):
+    ndirected = len(cases)
+    nrand = 120 if ctx.tier == "quick" else 1400
+    nlate = 40 if ctx.tier == "quick" else 300
+    late_rng = random.Random(ctx.rng.randrange(1 << 30))
+    for k in range(nrand):
         cases.append(random_case(ctx.rng, ctx.tier))
+        if k % 3 == 0 and nlate > 0:
+            nlate -= 1
+            cases.append(retrypath_case(late_rng, ctx.tier))
     mism, nontrivial, distinct = 0, 0, set()
     nfaults = {"dup": 0, "corrupt": 0}
     for ci, case in enumerate(cases):
@@ -842,7 +1140,10 @@ def run(ctx):
                 ctx.violation("%s:C03.%s" % (k0, n0),
                               {"case": small, "findings": [list(f[:3]) for f in unknown][:6]},
                               found_input=any(f[0] == "oracle" for f in unknown))
-        if len(ctx.violations) >= 3:
+        # stop early only with a CONCRETE failing script in hand: when the model<->code correspondence broke
+        # but no oracle failed yet, the search goes on through all directed cases and a share of the random ones
+        with_input = sum(1 for v in ctx.violations if v["found_input"])
+        if len(ctx.violations) >= 3 and (with_input >= 1 or ci >= ndirected + (60 if ctx.tier == "quick" else 400)):
             break
         if ci % 29 == 0:
             ctx.add_sample({"n": full["n"], "groups": full.get("groups"), "actions": acts[:10]})
@@ -865,14 +1166,19 @@ def run(ctx):
                                                 "retry", "error", "deliver", "receipt-to-app"][k], v)
                                               for k, v in sorted(stats["outs"].items()))
     ctx.coverage["faults_injected"] = nfaults
+    ctx.coverage["directed_cases"] = ndirected
+    ctx.coverage["late_key_directed"] = [c["name"] for c in late_key_cases()]
     ctx.coverage["world_model_actions_replayed"] = stats.get("world_actions", 0)
     ctx.coverage["partial"] = "completeness and per-(recipient,id) exactly-once are simulator-checked only"
     ctx.coverage["exhaustive"] = False
     return ctx.finish(
         rule="case = script over 2-4 accounts (<= 8 sends (10 thorough) of text / extended text / image / location / "
              "contact / link preview, 1:1 or to a group, restarts at quiescence) + explicit server schedule (random "
-             "order, bursts held) + <= 1 fault (duplicate or corrupt one ciphertext); 7 scripted + seeded random; "
-             "non-trivial = distinct action list with a group send, a fault or a restart",
+             "order, bursts held) + <= 1 fault (duplicate or corrupt one ciphertext); %d directed (incl. %d late-key "
+             "histories: a member served through its retry receipt, the duplicate of the original group stanza "
+             "delivered afterwards) + seeded random (every third followed by a random late-key script whose "
+             "duplicate is held back); non-trivial = distinct action list with a group send, a fault or a restart"
+             % (ndirected, len(late_key_cases())),
         assumptions_text=ASSUME)
 
 
